@@ -138,8 +138,10 @@ class Term:
             return True
         # an inequality is a verdict only between fully interpreted terms: a part the abstraction could not interpret
         # (opaque atom "<...>") on one side only means the comparison is undecided, not that the code is wrong
-        mine = {a for a in self.atoms() if a.startswith("<")} - EXPECTED_OPAQUE
-        theirs = {a for a in o.atoms() if a.startswith("<")} - EXPECTED_OPAQUE
+        def opaque(t):
+            import re as _re
+            return {m for a in t.atoms() if "<" in a for m in _re.findall(r"<[^<>]*>(?:\[\d+\])?", a)} - EXPECTED_OPAQUE
+        mine, theirs = opaque(self), opaque(o)
         if mine != theirs:
             raise NotSymbolic(f"term has parts the abstraction does not interpret: {sorted(mine ^ theirs)[0][:120]}")
         return False
